@@ -55,7 +55,9 @@ def do_import(src, sid):
     finally:
         sh(["git", "-C", REPO, "worktree", "remove", "--force", wt])
         shutil.rmtree(wt, ignore_errors=True)
-    ok = res.get("demo_passes_without_change") and res.get("compiles_with_change") and res.get("demo_fails_with_change") and res.get("repo_tests_pass_with_change")
+    # for the compile-level property C19 a demo that no longer compiles with the change IS the demonstration
+    c19 = (meta.get("property") or sid.split("-")[0]) == "C19"
+    ok = res.get("demo_passes_without_change") and (res.get("compiles_with_change") or c19) and res.get("demo_fails_with_change") and res.get("repo_tests_pass_with_change")
     print(json.dumps(res, indent=1))
     if not ok:
         print("REJECTED: the change does not satisfy the protocol")
